@@ -467,8 +467,8 @@ pub fn parse_airplanes_tab(s: &Screen) -> Option<(Vec<Row>, Vec<Vec<String>>, bo
         if r.len() <= hx {
             break;
         }
-        let first: String = r.iter().skip(hx).take(3).collect();
-        if first == ">> " {
+        // with a selection ratatui shifts header and rows right by the 3-cell highlight column
+        if hx >= 3 && r.iter().skip(hx - 3).take(3).collect::<String>() == ">> " {
             any_selected = true;
         }
         let cell = |a: usize, b: usize| -> String { r.iter().skip(hx + a).take(b - a).collect::<String>().trim().to_string() };
